@@ -456,6 +456,21 @@ func c12Structure(c *ctx, cs c12Case) {
 			ast.NewListNode(ast.NewListNode(ast.NewListNode(ast.NewBooleanNode("q"))), ast.NewListNode(ast.NewBinaryNode("q")))
 		})
 		expectRefuse("dup-ellipsis-names-across-lists", func() { ast.NewListNode(ast.NewListNode(ast.NewIntNode(1, 1), "..."), "...") })
+		// a fill whose value is a variable name renames the variable: the new name must not collide either
+		expectRefuse("fill-rename-collision-uint", func() { ast.NewUintNode(1, "a", "b", 5).FillVariables(map[string]interface{}{"a": "b"}) })
+		expectRefuse("fill-rename-collision-int", func() { ast.NewIntNode(2, "a", 1, "b").FillVariables(map[string]interface{}{"b": "a"}) })
+		expectRefuse("fill-rename-collision-float", func() { ast.NewFloatNode(4, "a", "b").FillVariables(map[string]interface{}{"a": "b"}) })
+		expectRefuse("fill-rename-collision-binary", func() { ast.NewBinaryNode("a", "b").FillVariables(map[string]interface{}{"a": "b"}) })
+		expectRefuse("fill-rename-collision-boolean", func() { ast.NewBooleanNode("a", true, "b").FillVariables(map[string]interface{}{"a": "b"}) })
+		expectRefuse("fill-rename-collision-list", func() { ast.NewListNode("a", "b").FillVariables(map[string]interface{}{"a": "b"}) })
+		expectRefuse("fill-rename-collision-across-children", func() {
+			ast.NewListNode(ast.NewIntNode(1, "a"), ast.NewUintNode(1, "b")).FillVariables(map[string]interface{}{"a": "b"})
+		})
+		expectRefuse("fill-item-bringing-a-sibling-name", func() {
+			ast.NewListNode("lv", ast.NewUintNode(1, "b")).FillVariables(map[string]interface{}{"lv": ast.NewIntNode(1, "b")})
+		})
+		expectRefuse("fill-rename-to-invalid-name", func() { ast.NewUintNode(1, "a").FillVariables(map[string]interface{}{"a": "9z"}) })
+		expectAccept("fill-rename-to-fresh-name", func() { ast.NewUintNode(1, "a", "b").FillVariables(map[string]interface{}{"a": "c"}) })
 		expectAccept("distinct-names", func() { ast.NewListNode(ast.NewIntNode(1, "a"), ast.NewUintNode(1, "b"), "c", "...") })
 		expectAccept("same-name-different-index", func() { ast.NewListNode(ast.NewIntNode(1, "a[0]"), ast.NewUintNode(1, "a[1]")) })
 	case "ellipsis":
